@@ -82,6 +82,8 @@ def check_insert(case, ctx):
     if case["read_evalpts"]:
         obj.delta = 0.25
         _ = obj.evalpts
+        if obj.rational:
+            _ = obj.ctrlpts, obj.weights          # populate the unweighted views before the net grows
     inserted = [[] for _ in range(pdim)]
     done = 0
     onknot = multi = rge2 = False
@@ -123,6 +125,18 @@ def check_insert(case, ctx):
             total *= s_
         ctx.check(len(build.stored_points(obj)) == total, "net-count", "control net has %d points for sizes %r" % (len(build.stored_points(obj)), nszs))
         ctx.check(build.degrees_of(obj) == degs, "degree-changed", "degrees changed to %r" % build.degrees_of(obj))
+        if obj.rational:
+            # the control net grew: the unweighted points and the weights grow with it
+            if done % 2:
+                Wv = list(obj.weights)              # either view may be the first one read after the edit
+                Pv = [list(q) for q in obj.ctrlpts]
+            else:
+                Pv = [list(q) for q in obj.ctrlpts]
+                Wv = list(obj.weights)
+            ctx.check(len(Pv) == total and len(Wv) == total, "net-views-size", "after the insertion ctrlpts has %d and weights %d entries for a net of %d" % (len(Pv), len(Wv), total))
+            hom = build.homogeneous(Pv, Wv)
+            ctx.check(all(all(abs(a - b) <= 1e-9 * (1 + abs(b)) for a, b in zip(x, y)) for x, y in zip(hom, build.stored_points(obj))), "net-views",
+                      "after the insertion ctrlpts * weights differs from the stored homogeneous net")
         lat = shape.obj_lattice(obj, extras=inserted)
         shape.same_shape(ctx, R, obj, lat, "shape-changed",
                          "after %d insertion call(s), last %r x%r via %s" % (done, params, nums, op["form"]))
